@@ -98,6 +98,8 @@ func (ve *VimeoExtractor) getDataFromSrcURL(srcURL string) (string, map[string]s
 		srcURL = "http:" + srcURL
 	}
 
+	// The fragment is not part of the path (ParseRequestURI does not split it off).
+	srcURL, _, _ = strings.Cut(srcURL, "#")
 	parsedURL, err := nurl.ParseRequestURI(srcURL)
 	if err != nil {
 		return "", nil
